@@ -329,7 +329,7 @@ pub fn run(report: &mut Report, replay: Option<&str>) {
             check_sqrt_value(&mut model, report, x, &listed);
         }
         let mut rng = Rng::new(seed ^ 0x5157);
-        let n = if thorough { 3000 } else { 300 };
+        let n = if thorough { 12000 } else { 1200 };
         for i in 0..n {
             // random positive doubles: uniform exponent and mantissa, and small integers
             let x = if i % 3 == 0 {
@@ -342,7 +342,7 @@ pub fn run(report: &mut Report, replay: Option<&str>) {
         }
     }
 
-    let programs_per_thread: usize = if thorough { 260 } else { 26 };
+    let programs_per_thread: usize = if thorough { 1500 } else { 150 };
     let threads = 12;
     report.parallel(threads, |tid, r| {
         let mut model = Model::spawn();
